@@ -25,6 +25,8 @@ type vRef struct {
 	cur    string
 	sent   []string
 	closed bool
+	// the socket was closed directly, not through the transport
+	sockClosed bool
 }
 
 // vAbandon is what a writer does with a message it gives up after an error (the
@@ -43,7 +45,10 @@ func c15Ops(n int, maxChunk int) {
 	t, c := vTransport()
 	ref := &vRef{}
 	for i := 0; i < n; i++ {
-		switch verifrt.Choose("op", 7) {
+		switch verifrt.Choose("op", 8) {
+		case 7: // the socket is closed behind the transport's back (Conn() is exported)
+			c.Close()
+			ref.sockClosed = true
 		case 0: // Write
 			b := verifrt.OpaqueBytes("w", 1, maxChunk)
 			k, err := t.Write(b)
@@ -63,7 +68,7 @@ func c15Ops(n int, maxChunk int) {
 		case 3: // Flush, send succeeds
 			verifrt.SetSendFault(c, false)
 			err := t.Flush()
-			c15AfterFlush(t, c, ref, err, false)
+			c15AfterFlush(t, c, ref, err, ref.sockClosed)
 		case 4: // Flush, send fails
 			verifrt.SetSendFault(c, true)
 			err := t.Flush()
@@ -71,7 +76,12 @@ func c15Ops(n int, maxChunk int) {
 			c15AfterFlush(t, c, ref, err, true)
 		case 5: // Close
 			err := t.Close()
-			verifrt.Assert("c15.close-idempotent-no-error", err == nil)
+			if ref.sockClosed && !ref.closed {
+				// the first Close may report that the socket was gone already; it still closes
+				verifrt.Assert("c15.close-of-a-dead-socket-reports-it", err != nil)
+			} else {
+				verifrt.Assert("c15.close-idempotent-no-error", err == nil)
+			}
 			verifrt.Assert("c15.closed-transport-not-open", !t.IsOpen())
 			ref.closed = true
 		case 6: // the writer abandons the message in progress
@@ -80,7 +90,7 @@ func c15Ops(n int, maxChunk int) {
 	}
 	// whatever happened before: abandon the message in progress; a fresh message
 	// then goes out alone and intact
-	if !ref.closed {
+	if !ref.closed && !ref.sockClosed {
 		verifrt.SetSendFault(c, false)
 		vAbandon(t, ref)
 		b := verifrt.Byte("final")
